@@ -194,7 +194,7 @@ def u_core():
     u.add(A, 1, 10, [["t", "x"], ["client", "c"]], clen=20)                # 1 regular
     u.add(B, 1, 11, [["t", "x"], ["t", "y"]], clen=0)                      # 2 regular, other author
     u.add(A, 0, 10, [], clen=300)                                           # 3 replaceable v1
-    u.add(A, 0, 20, [], clen=5)                                             # 4 replaceable v2
+    u.add(A, 0, 20, [], clen=0)                                             # 4 replaceable v2: the smallest possible event (152 bytes)
     u.add(A, 30000, 10, [["d", "x"]], clen=700)                             # 5 param x v1
     u.add(A, 30000, 20, [["d", "x"]], clen=1)                               # 6 param x v2
     u.add(A, 30000, 15, [["d", "y"]], clen=8)                               # 7 param y
@@ -248,8 +248,10 @@ def u_c10():
     u.add(B, 5, 22, [["e", ("ev", 1)], ["e", ("ev", 4)]], clen=0)            # 8 foreign, own
     u.add(B, 5, 23, [["a", ("addr", 30000, A, "x")]], clen=0)                # 9 foreign address
     u.add(B, 5, 24, [["a", ("addr", 30000, B, "x")], ["a", ("addr", 10000, A, "")]], clen=0)  # 10 own addr, foreign addr
-    u.add(B, 5, 25, [["e", "zz"], ["a", "nonsense"], ["e", ("ev", 13)], ["e", ("ev", 1)]], clen=0)  # 11 malformed, absent, foreign
+    u.add(B, 5, 25, [["e", "zz"], ["a", "nonsense"], ["e", ("ev", 14)], ["e", ("ev", 1)]], clen=0)  # 11 malformed, absent, foreign
     u.add(B, 5, 26, [["e", ("ev", 4)], ["a", ("addr", 30000, B, "x")]], clen=0)  # 12 all own (legit)
+    # 13: a long request: 258 effective own / absent targets, then a foreign one (fails at its 259th tag)
+    u.add(B, 5, 27, [["e", ("ev", 4)], ["a", ("addr", 30000, B, "x")]] + [["e", ("ev", 14)]] * 256 + [["e", ("ev", 1)]], clen=0)
     return u.finish()
 
 
@@ -289,6 +291,7 @@ def u_c18():
     u.add(A, 20000, 18, [], clen=13)                                           # 9 ephemeral by A
     u.add(A, 5, 30, [["e", ("ev", 1)]], clen=0)                                # 10 A deletes 1
     u.add(B, 20001, 19, [["t", "x"]], clen=1)                                  # 11 ephemeral by B
+    u.add(A, 1, 20, [["e", "x"], ["q", "x"], ["t", "x"], ["-"], ["r", "y"]], clen=2)  # 12 same value under several letters; a name-only tag before another tag
     return u.finish()
 
 
@@ -311,12 +314,31 @@ def u_q():
     u.add(A, 0, 20, [["t", "y"]], clen=13)                                 # 12 replaces 11
     u.add(B, 1, 10, [["t", "x"]], clen=14)                                 # 13 third event at time 10
     u.add(B, 1, 12, [["t", "x"], ["t", "x"]], clen=15)                     # 14 repeated identical tag
+    u.add(A, 30000, 12, [["d", "y"], ["t", "y"]], clen=16)                 # 15 same author and kind as 7/8, other d value
     u.s("zz")   # a value no event has
     u.s("w")    # a tag letter no event has
     return u.finish()
 
 
-CURATED = dict(core=u_core, c09=u_c09, c10=u_c10, c11=u_c11, c18=u_c18, q=u_q)
+def u_c16():
+    """Reopen / rebuild: address markers with empty, NUL-terminated, long and binary d values, id markers
+    of absent events, leftovers of removed / replaced events."""
+    u = Universe("c16", nauthors=2, nabsent=1)
+    A, B = 1, 2
+    longd = b"M" * 182 + b"tail-beyond-182"
+    u.add(A, 30000, 10, [["d", b"x\x00"]], clen=5)                                  # 1 d ends in NUL
+    u.add(A, 30000, 10, [["d", "x"]], clen=6)                                       # 2 d without it
+    u.add(A, 30000, 10, [["d", longd]], clen=7)                                     # 3 long d
+    u.add(A, 30000, 10, [["d", b"\xc3\xa9\x01"]], clen=8)                           # 4 binary-ish d
+    u.add(A, 5, 20, [["a", ("addr", 30000, A, b"x\x00")]], clen=0)                  # 5 marker, d ends in NUL
+    u.add(A, 5, 21, [["a", ("addr", 30000, A, longd)]], clen=0)                     # 6 marker, long d
+    u.add(A, 5, 22, [["a", ("addr", 30000, A, b"\xc3\xa9\x01")], ["e", ("ev", 10)]], clen=0)  # 7 marker binary d + absent id
+    u.add(A, 5, 23, [["a", ("addr", 10000, A, "")]], clen=0)                        # 8 marker, empty d
+    u.add(B, 1, 11, [["t", "x"]], clen=2000)                                        # 9 large regular event
+    return u.finish()
+
+
+CURATED = dict(c16=u_c16, core=u_core, c09=u_c09, c10=u_c10, c11=u_c11, c18=u_c18, q=u_q)
 
 
 # ------------------------------------------------------------------------------------------------
